@@ -13,7 +13,7 @@ TARGET = os.path.join(ROOT, "target")
 REPLAYS = os.path.join(ROOT, "replays")
 EVIDENCE = os.path.join(ROOT, "evidence")
 CORPUS = os.path.join(ROOT, "corpus")
-REPO = "/repo"
+REPO = os.environ.get("VERIF_REPO", "/repo")
 
 ENV = dict(os.environ, CARGO_NET_OFFLINE="true", CARGO_TARGET_DIR=TARGET)
 ENV.pop("RUSTFLAGS", None)  # harness/.cargo/config.toml supplies --cfg grevm_verif
